@@ -281,13 +281,14 @@ def state_fields(b):
 @contract("__init__.ExcludeRegionPlugin.handleGcodeQueuing")
 def _(c):
     def pre(b):
-        p = mk_plugin(b)
+        from contracts.motion import mk_motion_state, mk_printer
+        p = mk_plugin(b, state=mk_motion_state(b))
         k = b.choose(3, "gcode")
         gcode = [None, "", b.string("gcode")][k]
         return {"self": p, "args": {"commInstance": b.comm(b.bool("streaming")), "phase": "queuing", "cmd": b.string("cmd"),
-                                    "cmdType": None, "gcode": gcode, "subcode": None, "tags": None}}
+                                    "cmdType": None, "gcode": gcode, "subcode": None, "tags": None}, "ghost": {"P": mk_printer(b)}}
     c.pre(pre)
-    c.requires("gcode-nonempty-when-symbolic", lambda f: True)
+    c.requires("Inv", lambda f: hook_inv(f))
     c.modifies(lambda f: [(f.self.state, k) for k in f.self.state.fields] if truthy_active(f) else [])
     c.ensures("C11.inactive-is-transparent", lambda f: Implies(Not(f.old.self._activePrintJob),
                                                                And(f.result is None, untouched(f))), props=("C11",))
@@ -296,6 +297,12 @@ def _(c):
 
 def truthy_active(f):
     return True
+
+
+def hook_inv(f):
+    """The state/printer coupling invariant (established by print start + homing, preserved by every handler)."""
+    from contracts.motion import inv_all, inv_e
+    return And(inv_all(f.self.state, f.g["P"]), inv_e(f.self.state, f.g["P"]))
 
 
 def delegates(f, name):
@@ -316,9 +323,12 @@ def delegates(f, name):
 @contract("__init__.ExcludeRegionPlugin.handleAtCommandQueuing")
 def _(c):
     def pre(b):
-        return {"self": mk_plugin(b), "args": {"commInstance": b.comm(b.bool("streaming")), "phase": "queuing",
-                                               "cmd": b.string("cmd"), "parameters": b.string("parameters"), "tags": None}}
+        from contracts.motion import mk_motion_state, mk_printer
+        return {"self": mk_plugin(b, state=mk_motion_state(b)),
+                "args": {"commInstance": b.comm(b.bool("streaming")), "phase": "queuing",
+                         "cmd": b.string("cmd"), "parameters": b.string("parameters"), "tags": None}, "ghost": {"P": mk_printer(b)}}
     c.pre(pre)
+    c.requires("Inv", lambda f: hook_inv(f))
     c.modifies(lambda f: [(f.self.state, k) for k in f.self.state.fields])
     c.ensures("C11.inactive-is-transparent", lambda f: Implies(Not(f.old.self._activePrintJob),
                                                                And(f.result is None, untouched(f))), props=("C11",))
@@ -414,3 +424,49 @@ def _(c):
         config_same(f.self, f.old.self),
         If(f.a.clearExcludedRegions, eq(R.rl_len(f.self.excludedRegions), 0),
            R.same_list(f.self.excludedRegions, f.old.self.excludedRegions))), props=("C10", "C11"))
+
+
+# ---------------------------------------------------------------------------------------------
+# handleScriptHook (C15)
+@contract("__init__.ExcludeRegionPlugin.handleScriptHook")
+def _(c):
+    def pre(b):
+        from contracts.motion import mk_motion_state, mk_printer
+        st = mk_motion_state(b, lastRetraction="opaque", enter="opaque")
+        p = mk_plugin(b, state=st)
+        k = b.choose(4, "script")
+        stype, sname = [("gcode", "afterPrintDone"), ("gcode", "beforePrintStarted"), ("sometype", "afterPrintDone"),
+                        (b.string("scriptType"), b.string("scriptName"))][k]
+        return {"self": p, "args": {"commInstance": b.comm(b.bool("streaming")), "scriptType": stype, "scriptName": sname},
+                "ghost": {"P": mk_printer(b)}}
+    c.pre(pre)
+
+    def req(f):
+        from contracts.motion import inv_type, inv_excl, inv_lastpos, inv_pos
+        st, P = f.self.state, f.g["P"]
+        return And(inv_type(st), inv_excl(st), inv_lastpos(st, P), inv_pos(st, P))
+    c.requires("Inv", req)
+
+    def post(f):
+        from contracts.motion import exit_structure, at_tracked, z_order_ok, tracked_xyz
+        from spec import refprinter as RP
+        o, n = f.old.self, f.self
+        applies = And(str_eq(f.a.scriptType, "gcode"), str_eq(f.a.scriptName, "afterPrintDone"), o._activePrintJob, o.state.excluding)
+        if f.result is None:
+            return And(Not(applies), f.unchanged())
+        if not (isinstance(f.result, tuple) and len(f.result) == 2 and f.result[1] is None):
+            return False
+        cmds = f.result[0]
+        P = f.g["P"]
+        Q, log = RP.run(P, n.state.position, cmds, None, None)
+
+        class _F(object):       # exit_structure reads the *state* frame
+            pass
+        fs = _F()
+        fs.old = _F()
+        fs.old.self = o.state
+        fs.self = n.state
+        fs.native = getattr(f, "native", False)
+        return And(applies, Not(n.state.excluding), exit_structure(fs, RP.items_of(cmds)), at_tracked(Q, n.state),
+                   eq(Q.e, val(n.state.position.E_AXIS.current)), z_order_ok(P, Q, log, tracked_xyz(n.state)[2]))
+    c.ensures("C15.cleanup-exactly-when-episode-open", post, props=("C15", "C06", "C11", "C03"))
